@@ -400,6 +400,52 @@ def r03g(ctx):
         raise AnalysisError(f"R03g fixture: rewind detector broken: {got}")
 
 
+def r03h(ctx):
+    """One part, one path: what is looked up, what is dropped from the cache and what is written are addressed by the same value.
+
+    Document.get_part / set_part / del_part normalise the path (strip "./", translate the shortcuts "content", "styles" … to the real part
+    names) and then use it three ways: to find the part class, to address the cache of parsed parts, to address the container.  If one of
+    those uses sees the path *before* a normalisation step that the others see after it, a shortcut name is classified as "not an XML
+    part": the parsed copy survives a raw set_part, and the next save writes the stale tree over the new bytes.  Rule (reaching
+    definitions): every such use of the path has the same set of reaching definitions as the container call.
+    """
+    from ..paths import reaching_defs
+    repo = ctx.repo
+    ctx.rule("R03h", "class lookup, parsed-part cache and container are addressed with the same definition of the path", floor=4)
+    n = 0
+    for q in ("Document.get_part", "Document.set_part", "Document.del_part"):
+        f = repo.func(q)
+        cfg = cfg_of(f)
+        cont = [c for c in walk_no_nested(f.node) if isinstance(c, ast.Call) and call_name(c) in ("get_part", "set_part", "del_part") and "container" in canon(f, c.func)
+                and c.args and isinstance(c.args[0], ast.Name)]
+        if not cont:
+            continue
+        pv = cont[0].args[0].id
+        rd = reaching_defs(cfg, pv)
+        ref = rd.get(node_of(cfg, cont[0]).id, frozenset())
+        uses = []
+        for x in walk_no_nested(f.node):
+            if isinstance(x, ast.Call) and call_name(x) == "_get_part_class" and x.args and isinstance(x.args[0], ast.Name) and x.args[0].id == pv:
+                uses.append((x, "class lookup"))
+            elif isinstance(x, ast.Subscript) and _mentions_attr(x.value, "xmlparts") and isinstance(x.slice, ast.Name) and x.slice.id == pv:
+                uses.append((x, "parsed-part cache"))
+            elif isinstance(x, ast.Call) and x is not cont[0] and call_name(x) in ("get_part", "set_part", "del_part") and "container" in canon(f, x.func) \
+                    and x.args and isinstance(x.args[0], ast.Name) and x.args[0].id == pv:
+                uses.append((x, "container"))
+        for x, what in uses:
+            n += 1
+            got = rd.get(node_of(cfg, x).id, frozenset())
+            ok = got == ref
+            ctx.instance("R03h", f"{f.file}:{f.ident}", f"{what} `{norm(x, 40)}` sees the path the container call sees", ok=ok, nontrivial=True, line=x.lineno)
+            if not ok:
+                ctx.report("R03h", f, x, f"{what} `{norm(x, 40)}` uses `{pv}` before/after a normalisation step that {norm(cont[0], 40)} does not share",
+                           f"{q} addresses the {what} with another version of `{pv}` than the container: for a shortcut name (\"content\", \"styles\" …) or a \"./\" path the "
+                           f"part is classified differently from where it is written, e.g. the parsed copy survives a raw set_part and the next save writes the stale tree "
+                           f"over the new bytes")
+    if n == 0:
+        raise AnalysisError("R03h: no path uses found in Document.get_part/set_part/del_part")
+
+
 def run(ctx):
     r03a(ctx)
     r03b(ctx)
@@ -408,6 +454,7 @@ def run(ctx):
     r03e(ctx)
     r03f(ctx)
     r03g(ctx)
+    r03h(ctx)
 
 
 from ..selftest import Seed, unparse_seed  # noqa: E402
@@ -415,6 +462,9 @@ from ..selftest import Seed, unparse_seed  # noqa: E402
 _CT = "src/odfdo/container.py"
 _DOC = "src/odfdo/document.py"
 SEEDS = [
+    Seed("Document.set_part looks the class up before translating the shortcut", "fault", _DOC,
+         "        path = path.lstrip(\"./\")\n        path = _get_part_path(path)\n        cls = _get_part_class(path)\n",
+         "        path = path.lstrip(\"./\")\n        cls = _get_part_class(path)\n        path = _get_part_path(path)\n", "R03h"),
     Seed("zip save rewinds a reused buffer", "fault", _CT,
          "        if isinstance(target, (str, Path)) and backup:\n            self._do_backup(target)\n        self._save_zip(target)",
          "        if isinstance(target, (str, Path)):\n            if backup:\n                self._do_backup(target)\n        elif target.seekable():\n            target.seek(0)\n        self._save_zip(target)", "R03g"),
